@@ -99,6 +99,10 @@ def collect(prop: str, rules: list, tier: str, idx: Index):
     ctx = Ctx(prop, idx, tier)
     for r in rules:
         r(ctx)
+    rec = [(q, a, b) for q, a, b in getattr(idx, 'recovered_names', []) if q in ctx.functions_analysed]
+    if rec:
+        ctx.note('locals recognised under another name (xsa/roles.py; diagnostics use the reference name): '
+                 + ', '.join(f'{q.split(".", 1)[-1]}: {a} -> {b}' for q, a, b in rec[:20]))
     known = load_known()
     known_keys = {}
     for k in known.get('findings', []):
